@@ -14,6 +14,7 @@
 #include <boost/multi/adaptors/blas/nrm2.hpp>
 #include <boost/multi/adaptors/blas/asum.hpp>
 #include <boost/multi/adaptors/blas/iamax.hpp>
+#include <boost/multi/adaptors/blas/syrk.hpp>
 #include <boost/multi/array_ref.hpp>
 namespace multi = boost::multi;
 #ifndef NB
@@ -39,6 +40,8 @@ void dcopy_(INT const& n, double const* x, INT const& incx, double* y, INT const
 void dswap_(INT const& n, double* x, INT const& incx, double* y, INT const& incy) { ++r_calls; r_which = 7; r_n = n; r_a = x; r_incx = incx; r_c = y; r_incy = incy; }
 double dnrm2_(INT const& n, double const* x, INT const& incx) { ++r_calls; r_which = 8; r_n = n; r_a = x; r_incx = incx; return 5.0; }
 double dasum_(INT const& n, double const* x, INT const& incx) { ++r_calls; r_which = 9; r_n = n; r_a = x; r_incx = incx; return 6.0; }
+void dsyrk_(char const& uplo, char const& t, INT const& n, INT const& k, double const& alpha, double const* A, INT const& lda, double const& beta, double* C, INT const& ldc) {
+  ++r_calls; r_which = 11; r_ta = uplo; r_tb = t; r_n = n; r_k = k; r_a = A; r_lda = lda; r_c = C; r_ldc = ldc; r_alpha = alpha; r_beta = beta; }
 INT idamax_(INT const& n, double const* x, INT const& incx) { ++r_calls; r_which = 10; r_n = n; r_a = x; r_incx = incx; return 2; }   // 1-based position 2
 }
 static auto mk2(double* p, L s0, L s1, L n0, L n1) {
@@ -145,3 +148,30 @@ VF_HARNESS(level1) {   // dot, axpy, scal, copy, swap, nrm2, asum, iamax on stri
   }
   vf_reach("level1");
 }
+
+template<int LAYOUT> static void t_syrk() {   // C (n x n, triangle `side`) = alpha*A*A^T + beta*C, A n x k; LAYOUT bits: (A, C) 1 = row-major
+  L n = vf_range(1, NB); L k = vf_range(1, NB);
+  L as0, as1, cs0, cs1; mat_layout_fixed((LAYOUT >> 1) & 1, n, k, as0, as1); mat_layout_fixed(LAYOUT & 1, n, n, cs0, cs1);
+  L oa = vf_range(0, 3); L oc = vf_range(0, 3); L up = vf_range(0, 1);
+  auto A = mk2(g_ma + oa, as0, as1, n, k); auto C = mk2(g_mc + oc, cs0, cs1, n, n);
+  bool rejected = false;
+  try { multi::blas::syrk(up ? multi::blas::filling::upper : multi::blas::filling::lower, 2.0, A, 3.0, std::move(C)); } catch(...) { rejected = true; }
+  if(!rejected) {
+    vf_assert(r_calls == 1 && r_which == 11, "exactly one dsyrk call");
+    vf_assert((r_ta == 'U' || r_ta == 'L') && (r_tb == 'N' || r_tb == 'T' || r_tb == 'C'), "flags are valid");
+    vf_assert(r_n == n && r_k == k, "n is the order of C and k the contracted extent of A");
+    vf_assert(r_lda >= (r_tb == 'N' ? maxl(1, r_n) : maxl(1, r_k)) && r_ldc >= maxl(1, r_n), "leading dimensions satisfy the BLAS preconditions (else xerbla)");
+    vf_assert(r_alpha == 2.0 && r_beta == 3.0 && r_c == g_mc + oc && r_a == g_ma + oa, "scalars unchanged, base pointers are the operands'");
+    L r = vf_range(0, NB - 1); L c = vf_range(0, NB - 1); L l = vf_range(0, NB - 1); vf_assume(r < n && c < n && l < k);
+    // op(A')(r,l) must be A[r][l]
+    vf_assert(oa + (r_tb == 'N' ? r + l * r_lda : l + r * r_lda) == oa + r * as0 + l * as1, "op(A)(r,l) denotes A[r][l] for every index pair");
+    // C'(r,c) = c + r + c*ldc is C[r][c] (column-major C) or C[c][r] (row-major C); the referenced triangle must be the user's
+    bool direct = (r + c * r_ldc == r * cs0 + c * cs1); bool transposed = (r + c * r_ldc == c * cs0 + r * cs1);
+    vf_assert(direct || transposed, "C'(r,c) denotes C[r][c] or, C being symmetric, C[c][r]");
+    bool blas_tri = r_ta == 'U' ? r <= c : r >= c;
+    L i = direct ? r : c; L j = direct ? c : r;
+    if(r != c && !(direct && transposed)) vf_assert(blas_tri == (up ? i <= j : i >= j), "the triangle BLAS updates is the triangle the user selected");
+  }
+}
+#define S(LY) VF_HARNESS(syrk_l##LY) { t_syrk<LY>(); vf_reach("syrk_l" #LY); }
+S(0) S(1) S(2) S(3)
